@@ -4,6 +4,7 @@ import SignaloModel.Proofs.OwnedDeque
 import SignaloModel.Proofs.OwnedRuns
 import SignaloModel.Proofs.DequeSuffix
 import SignaloModel.Proofs.DequeExact
+import SignaloModel.Proofs.DequeCount
 /-!
 # C19 — Windowed filters drop every owned sample exactly once
 
@@ -12,6 +13,8 @@ The property theorems for C19: `#check` prints each statement, `#print axioms` i
 -/
 open SignaloModel
 
+#check @SignaloModel.Registry.owned_max_registry_count
+#check @SignaloModel.Deque.taps_count_run
 #check @SignaloModel.Deque.taps_exact_run
 #check @SignaloModel.Deque.taps_suffixMax_run
 #check @Registry.owned_mean_registry
@@ -30,6 +33,8 @@ open SignaloModel
 #check @Registry.owned_median_registry
 #check @Registry.run_append
 
+#print axioms SignaloModel.Registry.owned_max_registry_count
+#print axioms SignaloModel.Deque.taps_count_run
 #print axioms SignaloModel.Deque.taps_exact_run
 #print axioms SignaloModel.Deque.taps_suffixMax_run
 #print axioms Registry.owned_mean_registry
